@@ -1,2 +1,317 @@
-//! single-step contracts of the poll decoder
+//! Single-step contracts of the real `GenericPollPacket::poll` (DESIGN.md §2.3).
+//! The state struct has only pub fields, so each harness starts from *every* state satisfying the
+//! representation invariant `Inv` (not just reachable ones), performs ONE poll with a reader whose
+//! first `poll_read`s are scripted and later ones return Pending, and compares with the transition
+//! function written from the property statement.  Induction over the number of reads (step + merge)
+//! then gives schedule independence for schedules of any length.
 use super::*;
+use std::mem::MaybeUninit;
+use tokio::io::{AsyncRead, ReadBuf};
+
+pub(crate) const B: usize = 4; // bound on the body length dimension (body harnesses are labelled bounded(B))
+
+#[derive(Clone, Copy)]
+pub(crate) struct H { hd: u8, rl: u32 }
+#[derive(PartialEq, Eq, Clone, Copy)]
+pub(crate) enum E { Io(io::ErrorKind), Eof, VarInt, RemLen, Hdr, Other }
+impl From<io::Error> for E { fn from(e: io::Error) -> E { E::Io(e.kind()) } }
+impl From<Error> for E {
+    fn from(e: Error) -> E {
+        match e {
+            Error::IoError(k, _) => if k == io::ErrorKind::UnexpectedEof { E::Eof } else { E::Io(k) },
+            Error::InvalidVarByteInt => E::VarInt,
+            Error::InvalidRemainingLength => E::RemLen,
+            Error::InvalidHeader => E::Hdr,
+            _ => E::Other,
+        }
+    }
+}
+pub(crate) struct P { hd: u8, n: usize, body: [u8; B], empty: bool }
+
+/// Parametric mock of `PollHeader`: the generic `poll` talks to H only through these five methods.
+///  hd bit7: new_with fails; rl > B: new_with fails (bounds the body allocation);
+///  hd bit6: body-less packet type; hd bit0: block_decode leaves one byte unread; hd bit1: inner EOF.
+impl PollHeader for H {
+    type Error = E;
+    type Packet = P;
+    fn new_with(hd: u8, remaining_len: u32) -> Result<Self, E> {
+        if hd & 0x80 != 0 || remaining_len as usize > B { return Err(E::Hdr); }
+        Ok(H { hd, rl: remaining_len })
+    }
+    fn build_empty_packet(&self) -> Option<P> {
+        if self.hd & 0x40 != 0 { Some(P { hd: self.hd, n: 0, body: [0; B], empty: true }) } else { None }
+    }
+    fn block_decode(self, reader: &mut &[u8]) -> Result<P, E> {
+        let mut body = [0u8; B];
+        let n = reader.len();
+        let mut i = 0;
+        while i < n && i < B { body[i] = reader[i]; i += 1; }
+        if self.hd & 2 != 0 { return Err(E::Eof); }
+        let leave = if self.hd & 1 != 0 && n > 0 { 1 } else { 0 };
+        *reader = &reader[n - leave..];
+        Ok(P { hd: self.hd, n, body, empty: false })
+    }
+    fn remaining_len(&self) -> usize { self.rl as usize }
+    fn is_eof_error(err: &E) -> bool { *err == E::Eof }
+}
+
+/// Scripted transport. call k (0-based) < `ready`: behaves per `mode[k]`; afterwards Pending.
+/// It also checks the decoder's side of the AsyncRead contract: requested capacity and that the
+/// ReadBuf does not claim bytes as initialised that nobody wrote (F7).
+pub(crate) struct Script {
+    data: [[u8; B]; 2], n: [usize; 2], mode: [u8; 2], ready: u8, calls: u8,
+    cap_seen: [usize; 3], init_seen: [usize; 3], filled_seen: [usize; 3],
+}
+impl Script {
+    fn new(ready: u8) -> Script {
+        let s = Script { data: kani::any(), n: kani::any(), mode: kani::any(), ready, calls: 0,
+                         cap_seen: [0; 3], init_seen: [0; 3], filled_seen: [0; 3] };
+        kani::assume(s.mode[0] <= 3 && s.mode[1] <= 3);
+        kani::assume(s.n[0] >= 1 && s.n[0] <= B && s.n[1] >= 1 && s.n[1] <= B);
+        s
+    }
+}
+impl AsyncRead for Script {
+    fn poll_read(self: Pin<&mut Self>, _cx: &mut Context<'_>, buf: &mut ReadBuf<'_>) -> Poll<io::Result<()>> {
+        let me = self.get_mut();
+        let k = me.calls as usize;
+        me.calls += 1;
+        if k < 3 { me.cap_seen[k] = buf.remaining(); me.init_seen[k] = buf.initialized().len(); me.filled_seen[k] = buf.filled().len(); }
+        if k >= me.ready as usize { return Poll::Pending; }
+        match me.mode[k] {
+            0 => Poll::Pending,
+            1 => Poll::Ready(Ok(())),                                    // zero bytes: end of stream
+            2 => Poll::Ready(Err(io::ErrorKind::ConnectionReset.into())),
+            _ => { let n = if me.n[k] <= buf.remaining() { me.n[k] } else { buf.remaining() };
+                   buf.put_slice(&me.data[k][..n]); Poll::Ready(Ok(())) }
+        }
+    }
+}
+
+fn pow128(i: u8) -> u32 { match i { 0 => 1, 1 => 128, 2 => 16384, _ => 2097152 } }
+
+/// every header state satisfying Inv
+fn any_header_state() -> PollHeaderState {
+    let cb: Option<u8> = kani::any();
+    let var_idx: u8 = kani::any();
+    let var_int: u32 = kani::any();
+    kani::assume(var_idx <= 3 && var_int < pow128(var_idx));
+    if cb.is_none() { kani::assume(var_idx == 0 && var_int == 0); }
+    PollHeaderState { control_byte: cb, var_idx, var_int }
+}
+
+fn poll_once(state: &mut GenericPollPacketState<H>, rd: &mut Script) -> Poll<Result<(usize, Vec<MaybeUninit<u8>>, P), E>> {
+    let waker = Waker::noop();
+    let mut cx = Context::from_waker(&waker);
+    let mut fut = GenericPollPacket::new(state, rd);   // a fresh future every time: resume-from-state
+    Pin::new(&mut fut).poll(&mut cx)
+}
+
+//@ id=poll.header-step props=C03,C04,C05,C07,C08,C14,C15,C20 kind=complete tier=quick
+#[kani::proof]
+#[kani::unwind(6)]
+fn k_poll_header_step() {
+    let st = any_header_state();
+    let (cb0, idx0, v0) = (st.control_byte, st.var_idx, st.var_int);
+    let mut state = GenericPollPacketState::Header(st);
+    let mut rd = Script::new(1);
+    let b = rd.data[0][0];
+    let mode = rd.mode[0];
+    let out = poll_once(&mut state, &mut rd);
+    assert!(rd.cap_seen[0] == 1, "C05:poll.header:asks-for-exactly-one-byte");
+    assert!(rd.init_seen[0] >= rd.filled_seen[0], "C03:poll.header:readbuf-well-formed");
+    match mode {
+        0 => { assert!(out.is_pending(), "C05:poll.header:pending-iff-transport-pending");
+               match &state { GenericPollPacketState::Header(h) => assert!(h.control_byte == cb0 && h.var_idx == idx0 && h.var_int == v0, "C05:poll.header:pending-leaves-state-unchanged"), _ => assert!(false, "C05:poll.header:pending-leaves-state-unchanged") } }
+        1 => assert!(matches!(out, Poll::Ready(Err(E::Eof))), "C07:poll.header:zero-length-read-is-UnexpectedEof"),
+        2 => assert!(matches!(out, Poll::Ready(Err(E::Io(io::ErrorKind::ConnectionReset)))), "C14:poll.header:transport-error-kind-preserved"),
+        _ => {
+            if cb0.is_none() {
+                assert!(out.is_pending(), "C05:poll.header:needs-more-after-control-byte");
+                match &state { GenericPollPacketState::Header(h) => assert!(h.control_byte == Some(b) && h.var_idx == 0 && h.var_int == 0, "C05:poll.header:control-byte-recorded"), _ => assert!(false, "C05:poll.header:control-byte-recorded") }
+            } else {
+                let v1 = v0 + ((b % 128) as u32) * pow128(idx0);
+                if b >= 128 {
+                    if idx0 < 3 {
+                        assert!(out.is_pending(), "C05:poll.header:continuation-needs-more");
+                        match &state { GenericPollPacketState::Header(h) => assert!(h.control_byte == cb0 && h.var_idx == idx0 + 1 && h.var_int == v1, "C15:poll.header:var-int-accumulates-7-bits-per-byte"), _ => assert!(false, "C15:poll.header:var-int-accumulates-7-bits-per-byte") }
+                    } else {
+                        assert!(matches!(out, Poll::Ready(Err(E::VarInt))), "C15:poll.header:fifth-length-byte-is-InvalidVarByteInt");
+                    }
+                } else {
+                    let hd = cb0.unwrap();
+                    let rl = v1;
+                    if hd & 0x80 != 0 || rl as usize > B {
+                        assert!(matches!(out, Poll::Ready(Err(E::Hdr))), "C20:poll.header:new_with-error-passed-through");
+                    } else if hd & 0x40 != 0 {
+                        if rl != 0 { assert!(matches!(out, Poll::Ready(Err(E::RemLen))), "C04:poll.header:bodyless-packet-with-nonzero-length-rejected"); }
+                        else { match out { Poll::Ready(Ok((t, body, p))) => { assert!(t == 2 + idx0 as usize, "C05:poll.header:bodyless-total-equals-bytes-consumed"); assert!(body.len() == 0 && p.empty, "C01:poll.header:bodyless-packet-returned"); }, _ => assert!(false, "C04:poll.header:bodyless-packet-accepted") } }
+                    } else if rl == 0 {
+                        assert!(matches!(out, Poll::Ready(Err(E::RemLen))), "C04:poll.header:zero-length-for-packet-with-body-rejected");
+                    } else {
+                        assert!(out.is_pending(), "C05:poll.header:body-needs-more");
+                        assert!(rd.cap_seen[1] == rl as usize, "C05:poll.body:first-read-asks-exactly-remaining-length");
+                        assert!(rd.init_seen[1] == 0 && rd.filled_seen[1] == 0, "C03:poll.body:uninitialised-buffer-not-claimed-initialised");
+                        match &state { GenericPollPacketState::Body(bs) => { assert!(bs.idx == 0 && bs.buf.len() == rl as usize, "C05:poll.header:body-state-initialised");
+                                assert!(bs.total == 2 + idx0 as usize + rl as usize, "C08:poll.header:total-is-1+length-bytes+remaining"); assert!(bs.header.hd == hd && bs.header.rl == rl, "C05:poll.header:header-kept"); },
+                            _ => assert!(false, "C05:poll.header:moves-to-body-state") }
+                    }
+                }
+            }
+        }
+    }
+}
+
+/// every body state satisfying Inv (buffer length len in 1..=B, idx < len, prefix already delivered)
+fn any_body_state(pre: &[u8; B]) -> (GenericPollPacketState<H>, usize, usize, u8, usize) {
+    let len: usize = kani::any();
+    kani::assume(len >= 1 && len <= B);
+    let idx: usize = kani::any();
+    kani::assume(idx < len);
+    let mut buf: Vec<MaybeUninit<u8>> = Vec::with_capacity(len);
+    unsafe { buf.set_len(len); }
+    let mut i = 0;
+    while i < idx { buf[i] = MaybeUninit::new(pre[i]); i += 1; }
+    let hd: u8 = kani::any();
+    kani::assume(hd & 0xC0 == 0);
+    let k: usize = kani::any();
+    kani::assume(k <= 3);
+    let header = H { hd, rl: len as u32 };
+    let total = 2 + k + len;
+    (GenericPollPacketState::Body(GenericPollBodyState { header, total, idx, buf }), len, idx, hd, total)
+}
+
+//@ id=poll.body-step props=C01,C03,C04,C05,C07,C14,C20 kind=bounded(body-length<=4) tier=quick
+#[kani::proof]
+#[kani::unwind(6)]
+fn k_poll_body_step() {
+    let pre: [u8; B] = kani::any();
+    let (mut state, len, idx, hd, total) = any_body_state(&pre);
+    let mut rd = Script::new(1);
+    kani::assume(rd.n[0] <= len - idx);
+    let n = rd.n[0];
+    let data = rd.data[0];
+    let mode = rd.mode[0];
+    let out = poll_once(&mut state, &mut rd);
+    assert!(rd.cap_seen[0] == len - idx, "C05:poll.body:never-asks-beyond-the-frame");
+    assert!(rd.init_seen[0] == 0 && rd.filled_seen[0] == 0, "C03:poll.body:uninitialised-buffer-not-claimed-initialised");
+    match mode {
+        0 => { assert!(out.is_pending(), "C05:poll.body:pending-iff-transport-pending");
+               match &state { GenericPollPacketState::Body(b) => assert!(b.idx == idx && b.buf.len() == len && b.total == total, "C05:poll.body:pending-leaves-state-unchanged"), _ => assert!(false, "C05:poll.body:pending-leaves-state-unchanged") } }
+        1 => assert!(matches!(out, Poll::Ready(Err(E::Eof))), "C07:poll.body:zero-length-read-is-UnexpectedEof"),
+        2 => assert!(matches!(out, Poll::Ready(Err(E::Io(io::ErrorKind::ConnectionReset)))), "C14:poll.body:transport-error-kind-preserved"),
+        _ => {
+            if idx + n < len {
+                assert!(out.is_pending(), "C05:poll.body:needs-more");
+                assert!(rd.cap_seen[1] == len - idx - n, "C05:poll.body:next-read-asks-only-for-the-rest");
+                match &state { GenericPollPacketState::Body(b) => assert!(b.idx == idx + n && b.buf.len() == len && b.total == total, "C05:poll.body:progress-recorded-in-state"), _ => assert!(false, "C05:poll.body:stays-in-body-state") }
+            } else if hd & 2 != 0 {
+                assert!(matches!(out, Poll::Ready(Err(E::RemLen))), "C20:poll.body:inner-eof-is-InvalidRemainingLength");
+            } else if hd & 1 != 0 {
+                assert!(matches!(out, Poll::Ready(Err(E::RemLen))), "C04:poll.body:leftover-bytes-are-InvalidRemainingLength");
+            } else {
+                match out {
+                    Poll::Ready(Ok((t, b, p))) => {
+                        assert!(t == total, "C05:poll.body:reported-total");
+                        assert!(b.len() == len && p.n == len, "C01:poll.body:whole-body-handed-to-decoder-and-returned");
+                        let mut j = 0;
+                        while j < len {
+                            let want = if j < idx { pre[j] } else { data[j - idx] };
+                            assert!(p.body[j] == want, "C01:poll.body:decoder-sees-exactly-the-delivered-bytes");
+                            assert!(unsafe { b[j].assume_init() } == want, "C01:poll.body:raw-body-returned-unchanged");
+                            j += 1;
+                        }
+                    }
+                    _ => assert!(false, "C04:poll.body:complete-well-formed-body-accepted"),
+                }
+            }
+        }
+    }
+}
+
+/// merge, header phase: ONE poll that sees two reads ends where two single-read polls (each from a fresh future built
+/// from the caller-held state, as proved by `poll.header-step`) would: after a first byte that leaves the header
+/// incomplete, the second read is handled exactly as a first read from the updated state.
+//@ id=poll.header-merge props=C05,C08,C15 kind=complete tier=thorough
+#[kani::proof]
+#[kani::unwind(6)]
+fn k_poll_header_merge() {
+    let st = any_header_state();
+    let (cb0, idx0, v0) = (st.control_byte, st.var_idx, st.var_int);
+    let mut state = GenericPollPacketState::Header(st);
+    let mut rd = Script::new(2);
+    kani::assume(rd.mode[0] == 3);
+    let b1 = rd.data[0][0];
+    // first byte leaves the header incomplete: control byte, or a continuation byte with room left
+    kani::assume(cb0.is_none() || (b1 >= 128 && idx0 < 3));
+    let (cb1, idx1, v1) = if cb0.is_none() { (Some(b1), 0u8, 0u32) } else { (cb0, idx0 + 1, v0 + ((b1 % 128) as u32) * pow128(idx0)) };
+    let b2 = rd.data[1][0];
+    let mode2 = rd.mode[1];
+    kani::assume(mode2 != 3 || b2 >= 128 || cb0.is_none());   // completing the header moves to the body: covered by header-step
+    let out = poll_once(&mut state, &mut rd);
+    assert!(rd.cap_seen[0] == 1 && rd.cap_seen[1] == 1, "C05:poll.header:each-read-asks-for-one-byte");
+    match mode2 {
+        0 => { assert!(out.is_pending(), "C05:poll.header:second-read-pending");
+               match &state { GenericPollPacketState::Header(h) => assert!(h.control_byte == cb1 && h.var_idx == idx1 && h.var_int == v1, "C05:poll.header:two-reads-equal-two-steps"), _ => assert!(false, "C05:poll.header:two-reads-equal-two-steps") } }
+        1 => assert!(matches!(out, Poll::Ready(Err(E::Eof))), "C07:poll.header:eof-after-partial-header"),
+        2 => assert!(matches!(out, Poll::Ready(Err(E::Io(io::ErrorKind::ConnectionReset)))), "C14:poll.header:error-after-partial-header"),
+        _ => {
+            if cb0.is_none() {
+                // second byte is the first length byte
+                if b2 >= 128 {
+                    assert!(out.is_pending(), "C05:poll.header:two-reads-equal-two-steps");
+                    match &state { GenericPollPacketState::Header(h) => assert!(h.control_byte == cb1 && h.var_idx == 1 && h.var_int == (b2 % 128) as u32, "C05:poll.header:two-reads-equal-two-steps"), _ => assert!(false, "C05:poll.header:two-reads-equal-two-steps") }
+                }
+            } else if idx1 < 3 {
+                assert!(out.is_pending(), "C05:poll.header:two-reads-equal-two-steps");
+                match &state { GenericPollPacketState::Header(h) => assert!(h.control_byte == cb1 && h.var_idx == idx1 + 1 && h.var_int == v1 + ((b2 % 128) as u32) * pow128(idx1), "C05:poll.header:two-reads-equal-two-steps"), _ => assert!(false, "C05:poll.header:two-reads-equal-two-steps") }
+            } else {
+                assert!(matches!(out, Poll::Ready(Err(E::VarInt))), "C15:poll.header:fifth-length-byte-is-InvalidVarByteInt");
+            }
+        }
+    }
+}
+
+/// merge, body phase: one poll that sees a partial chunk and then a second read
+//@ id=poll.body-merge props=C05,C08 kind=bounded(body-length<=4) tier=thorough
+#[kani::proof]
+#[kani::unwind(6)]
+fn k_poll_body_merge() {
+    let pre: [u8; B] = kani::any();
+    let (mut state, len, idx, hd, total) = any_body_state(&pre);
+    let mut rd = Script::new(2);
+    kani::assume(rd.mode[0] == 3 && rd.n[0] < len - idx && rd.n[1] <= len - idx - rd.n[0]);
+    let (n1, n2) = (rd.n[0], rd.n[1]);
+    let (d1, d2) = (rd.data[0], rd.data[1]);
+    let mode2 = rd.mode[1];
+    let out = poll_once(&mut state, &mut rd);
+    assert!(rd.cap_seen[0] == len - idx && rd.cap_seen[1] == len - idx - n1, "C05:poll.body:never-asks-beyond-the-frame");
+    assert!(rd.init_seen[1] == 0 && rd.filled_seen[1] == 0, "C03:poll.body:uninitialised-buffer-not-claimed-initialised");
+    match mode2 {
+        0 => { assert!(out.is_pending(), "C05:poll.body:second-read-pending");
+               match &state { GenericPollPacketState::Body(b) => assert!(b.idx == idx + n1 && b.buf.len() == len && b.total == total, "C05:poll.body:two-reads-equal-two-steps"), _ => assert!(false, "C05:poll.body:two-reads-equal-two-steps") } }
+        1 => assert!(matches!(out, Poll::Ready(Err(E::Eof))), "C07:poll.body:eof-after-partial-body"),
+        2 => assert!(matches!(out, Poll::Ready(Err(E::Io(io::ErrorKind::ConnectionReset)))), "C14:poll.body:error-after-partial-body"),
+        _ => {
+            if idx + n1 + n2 < len {
+                assert!(out.is_pending(), "C05:poll.body:two-reads-equal-two-steps");
+                match &state { GenericPollPacketState::Body(b) => assert!(b.idx == idx + n1 + n2 && b.buf.len() == len && b.total == total, "C05:poll.body:two-reads-equal-two-steps"), _ => assert!(false, "C05:poll.body:two-reads-equal-two-steps") }
+            } else if hd & 3 != 0 {
+                assert!(matches!(out, Poll::Ready(Err(E::RemLen))), "C04:poll.body:inexact-fill-is-InvalidRemainingLength");
+            } else {
+                match out {
+                    Poll::Ready(Ok((t, b, p))) => {
+                        assert!(t == total && b.len() == len && p.n == len, "C05:poll.body:two-reads-equal-two-steps");
+                        let mut j = 0;
+                        while j < len {
+                            let want = if j < idx { pre[j] } else if j < idx + n1 { d1[j - idx] } else { d2[j - idx - n1] };
+                            assert!(p.body[j] == want, "C05:poll.body:chunked-delivery-same-bytes");
+                            j += 1;
+                        }
+                    }
+                    _ => assert!(false, "C05:poll.body:two-reads-equal-two-steps"),
+                }
+            }
+        }
+    }
+}
